@@ -20,6 +20,10 @@ TABLES = {
     "B": {"NaN": ("nan", "nan"), "nbig": (-1e300, -2147483648.0), "m1": (-1.0, -1.0), "ntiny": (-1e-300, -1e-300),
           "zero": (0.0, 0.0), "tiny": (1e-300, 1e-300), "half": (0.25, 0.75), "one": (1.0, 1.0), "two": (3.0, 3.0),
           "big": (1e300, 2147483647.0), "nonint": (2.5, -0.5)},
+    # values whose %g text is long (error messages list the arguments)
+    "C": {"NaN": ("nan", "nan"), "nbig": (-1234567.5, -1234567.0), "m1": (-1.0, -1.0), "ntiny": (-1.234567e-7, -1.234567e-7),
+          "zero": (0.0, 0.0), "tiny": (1.234567e-7, 1.234567e-7), "half": (0.5, 0.5), "one": (1.0, 1.0), "two": (2.0, 2.0),
+          "big": (1234567.5, 1234567.0), "nonint": (1.234567, 1.234567)},
 }
 
 
@@ -137,6 +141,14 @@ def run(tier):
                 cases.append({"id": len(cases), "fn": f["name"], "ar": f["nargs"], "ip": f["ip"], "rnd": f["random"], "str": f["string"],
                               "cls": g["cls"], "mode": g["mode"], "digc": g["digc"], "args": args, "tb": tb,
                               "meas": g["mode"] != "v" and all(c in PLAIN for c in g["cls"])})
+    # every function with the same irregular class at every position, values with long texts (never sampled away)
+    for f in sorted(funcs, key=lambda x: x["name"]):
+        gs = bysig[sigs.index((f["nargs"], tuple(f["ip"])))]
+        for g in gs:
+            if f["nargs"] >= 3 and g["mode"] == "v" and len(set(g["cls"])) == 1 and g["cls"][0] not in ("half", "one", "two"):
+                args = [TABLES["C"][c][1 if (j + 1) in f["ip"] else 0] for j, c in enumerate(g["cls"])]
+                cases.append({"id": len(cases), "fn": f["name"], "ar": f["nargs"], "ip": f["ip"], "rnd": f["random"], "str": f["string"],
+                              "cls": g["cls"], "mode": g["mode"], "digc": g["digc"], "args": args, "tb": "C", "meas": False})
     # run the real bindings (shards of whole functions), validate
     nsh = NPROC
     order = sorted(range(len(cases)), key=lambda i: cases[i]["fn"])
